@@ -15,7 +15,7 @@
 (*   sound, maximal, equal to the functional form used by Inf.                          *)
 EXTENDS Infer, FiniteSetsExt, Json, IOUtils
 
-CONSTANTS Tier,     \* "nv" (tiny, non-vacuity runs) | "quick" | "thorough"
+CONSTANTS Tier,     \* "nv" (tiny: non-vacuity runs, automaton) | "fsm_full" (tiny + larger method-set space) | "quick" | "thorough"
           L,        \* maximal container length
           Emit,     \* TRUE: emit rows
           Mode      \* "objs" | "fsm"
@@ -33,12 +33,13 @@ ProtoAtoms == {Atom("USized", 0), Atom("UCont", 0), Atom("URev", 0), Atom("UItor
 TypeObjs == {TypeObj("int"), TypeObj("A"), TypeObj("E"), TypeObj("list"), TypeObj("USet")}
 AllAtoms == {i0, i1, bF, bT, f1, cj, sa, none, oa, ob, eA, fn, oo} \cup ProtoAtoms
 
-ItemAtoms == CASE Tier = "nv"    -> {i1, sa, eA}
+Tiny == Tier \in {"nv", "fsm_full"}
+ItemAtoms == CASE Tiny           -> {i1, sa, eA}
                [] Tier = "quick" -> {i1, sa, bT, none, ob, eA, fn, oo, TypeObj("int")}
                [] OTHER          -> {i1, sa, bT, none, ob, eA, fn, oo, TypeObj("int"), f1}
 KeyAtoms  == {i1, sa, none}
 SmallAtoms == {i1, sa}
-LL == IF Tier = "nv" THEN 2 ELSE L
+LL == IF Tiny THEN 2 ELSE L
 
 SeqLikeCls == {"list", "tuple", "deque", "USeq", "UColl", "dict_values", "odict_values", "UMSeq", "MyList", "DSeq"}
 SetLikeCls == {"set", "frozenset", "dict_keys", "odict_keys", "USet", "USetNe"}
@@ -48,7 +49,7 @@ D1Seq   == { Cont(c, s) : c \in SeqLikeCls, s \in SeqsUpTo(ItemAtoms, LL) }
 D1Set   == { Cont(c, s) : c \in SetLikeCls, s \in { t \in SeqsUpTo(ItemAtoms, LL) : Distinct(t) } }
 D1Range == { Cont("range", [i \in 1..n |-> Atom("int", i - 1)]) : n \in 0..LL }
 D1Iter  == { Iter(c, s) : c \in IterCls, s \in {<<>>, <<i1>>} }
-MapVals == IF Tier = "nv" THEN {i1, sa, eA} ELSE ItemAtoms \ {f1}
+MapVals == IF Tiny THEN {i1, sa, eA} ELSE ItemAtoms \ {f1}
 D1Map   == { Map(c, s) : c \in MapLikeCls, s \in { t \in SeqsUpTo(Pairs(KeyAtoms, MapVals), 2) : KeyDistinct(t) } }
            \cup { Map("Counter", s) : s \in { t \in SeqsUpTo(Pairs(KeyAtoms, {i1, i2, sa}), 2) : KeyDistinct(t) } }
 Tup2(S, T) == { Cont("tuple", <<a, b>>) : a \in S, b \in T }
@@ -68,11 +69,12 @@ InnerBack == { Cont("list", <<Back(2)>>), Cont("tuple", <<Back(2)>>), Map("dict"
                Cont("list", <<i1, Back(1)>>), Cont("list", <<Back(1)>>), Cont("USeq", <<Back(2)>>),
                Cont("list", <<Back(2), i1>>) }
 InnerHashable == { x \in Inner : x.cls \in {"tuple", "range", "frozenset"} } \cup {eA, fn}
-Items2 == IF Tier = "nv"
+Items2 == IF Tiny
           THEN { Cont("list", <<i1>>), Cont("dict_items", <<Cont("tuple", <<sa, i1>>)>>), Cont("odict_keys", <<sa>>),
                  Cont("DSeq", <<i1>>), eA, Back(1), Cont("list", <<Back(2)>>), i1 }
           ELSE Inner \cup InnerBack \cup {i1, sa, none, eA, fn, Back(1)}
-D2Seq == { x \in { Cont(c, s) : c \in {"list", "tuple", "USeq", "deque", "UMSeq"}, s \in SeqsUpTo(Items2, 2) } :
+D2SeqCls == IF Tier = "quick" THEN {"list", "tuple", "USeq"} ELSE {"list", "tuple", "USeq", "deque", "UMSeq"}
+D2Seq == { x \in { Cont(c, s) : c \in D2SeqCls, s \in SeqsUpTo(Items2, 2) } :
              WellFormed(x, <<>>) /\ ODepth(x) >= 1 }
 D2Set == { Cont(c, s) : c \in {"set", "USet"}, s \in { t \in SeqsUpTo(InnerHashable \cup {i1}, 2) : Distinct(t) } }
 D2Map == { x \in { Map(c, s) : c \in {"dict", "UMap", "OrderedDict", "DMap", "UMapNe"},
@@ -86,7 +88,7 @@ Mid3 == { Cont("list", <<Cont("list", <<Back(3)>>)>>), Cont("tuple", <<Cont("lis
           Map("dict", <<KV(sa, Cont("list", <<i1, sa>>))>>), Cont("tuple", <<Cont("list", <<>>), eA>>),
           Cont("list", <<Cont("odict_keys", <<sa>>)>>), Cont("list", <<Map("dict", <<KV(i1, Back(3))>>)>>),
           Cont("list", <<i1>>), i1, Back(1) }
-D3 == IF Tier = "nv" THEN {}
+D3 == IF Tiny THEN {}
       ELSE { x \in { Cont(c, s) : c \in {"list", "tuple", "deque"}, s \in SeqsUpTo(Mid3, 2) } : WellFormed(x, <<>>) }
            \cup { x \in { Map("dict", <<KV(sa, v)>>) : v \in Mid3 } : WellFormed(x, <<>>) }
 
@@ -103,7 +105,7 @@ G1 == { {"__contains__"}, {"__iter__"}, {"__len__"}, {"__buffer__"}, SeqG, MSeqG
         {"__next__"}, GenG, {"__reversed__"}, SeqG \ {"count"}, MapG \ {"__ne__"}, SetG \ {"__ne__"} }
 G2 == { {"__await__"}, GenG, {"__aiter__"}, {"__anext__"}, AGenG, {"__len__"}, {"__iter__"} }
 G1q == G1 \ { {"__buffer__"}, SeqG \ {"count"}, SetG \ {"__ne__"} }
-MSpace == { UNION S : S \in SUBSET (IF Tier = "thorough" THEN G1 ELSE G1q) } \cup { UNION S : S \in SUBSET G2 }
+MSpace == { UNION S : S \in SUBSET (IF Tier = "fsm_full" THEN G1 ELSE G1q) } \cup { UNION S : S \in SUBSET G2 }
           \cup { InstMethods(c) : c \in AbcPathCls } \cup { InstMethods(c) \cup MetaMethods(c) : c \in AbcPathCls }
 MSeq == TLCEval(SetToSeq(MSpace))
 NM == TLCEval(Len(MSeq))
@@ -160,7 +162,7 @@ Facts(j) ==
       satOn |-> SatX(on, x, <<>>),
       exc   |-> \E h \in hs : h.k = "exc",
       term  |-> \A h \in hs : ~HasNode(h, "diverge") /\ HDepth(h) <= ODepth(x),
-      back  |-> HasBack(x),
+      back  |-> HasBack(x), vback |-> VisBack(x),
       markOn |-> HasMarker(on),
       markO1 |-> \E r \in 1..Lcm : HasMarker(o1[r]),
       hom   |-> on.k = "exc" \/ HasNode(on, "union") \/ \A r \in 1..Lcm : o1[r] = on,
@@ -218,8 +220,9 @@ Inv_NoException   == Active => ~fx.exc
 \* inference terminates; the hint is no deeper than the object
 Inv_Terminates    == Active => fx.term
 \* the recursion placeholder is produced exactly for self-referential containers
-Inv_MarkerIffBack == Active => /\ (fx.markOn <=> (fx.back /\ fx.on.k # "exc"))
-                               /\ (fx.markO1 => fx.back)
+\* (at a position the inference visits: a mapping that is not inferred as a mapping has only its keys visited)
+Inv_MarkerIffBack == Active => /\ (fx.markOn <=> (fx.vback /\ fx.on.k # "exc"))
+                               /\ (fx.markO1 => fx.vback)
 \* O1 inference describes ONE sampled item per level (documented trade-off): it is only required to agree with
 \* the full inference where the object is homogeneous at every level (no union in the On hint)
 Inv_O1Homogeneous == Active => fx.hom
@@ -243,7 +246,7 @@ EmitRows == (Active /\ Emit) => JsonSerialize(IOEnv.ROW_DIR \o "/row_" \o ToStri
 AllCls == AllClsX
 EmitMeta == (ph = 0 /\ Emit) =>
               JsonSerialize(IOEnv.ROW_DIR \o "/meta.json",
-                 [t |-> "meta", lcm |-> Lcm, nobj |-> NObj, design |-> Design,
+                 [t |-> "meta", lcm |-> Lcm, nobj |-> NObj, legacy |-> Legacy,
                   methods |-> [c \in AbcPathCls |-> [inst |-> InstMethods(c), meta |-> MetaMethods(c)]],
                   abcs |-> [c \in AllCls |-> AbcsX(c)],
                   parents |-> [c \in AllCls |-> ParentX(c)],
